@@ -38,6 +38,10 @@ def coq_type(t):
         return t[1]
     if k == 'tuple':
         return '(' + ' * '.join(coq_type(e) for e in t[1]) + ')'
+    if k == 'array':
+        return '(list ' + coq_type(t[1]) + ')'
+    if k == 'fnptr':
+        return '(' + ' -> '.join([coq_type(a) for a in t[1]] + ['outcome ' + coq_type(t[2])]) + ')'
     if k == 'adt':
         name = {'Option': 'option'}.get(t[1], t[1])
         if not t[2]:
@@ -228,6 +232,10 @@ class Crate:
             return {'+': a + b, '-': a - b, '*': a * b, '<<': a << b, '>>': a >> b, '|': a | b, '&': a & b, '^': a ^ b}[e.op]
         if e.kind == 'cast':
             return self.const_eval(e.e, path)
+        if e.kind == 'paren':
+            return self.const_eval(e.e, path)
+        if e.kind == 'array':
+            return [self.const_eval(x, path) for x in e.elems]
         raise Unsupported("unsupported constant expression", path, e.line)
 
     # -- types
@@ -242,6 +250,14 @@ class Crate:
             return ('tuple', tuple(self.conv_type(e, tparams, path, self_ty) for e in ty.elems))
         if ty.kind == 'tnever':
             return T_NEVER
+        if ty.kind == 'tarray':
+            return ('array', self.conv_type(ty.elem, tparams, path, self_ty), self.const_eval(ty.len, path))
+        if ty.kind == 'tslice':
+            raise Unsupported("slice types are not supported", path, ty.line)
+        if ty.kind == 'tfn':
+            if not ty.args:
+                raise Unsupported("fn pointers without arguments are not supported", path, ty.line)
+            return ('fnptr', tuple(self.conv_type(a, tparams, path, self_ty) for a in ty.args), self.conv_type(ty.ret, tparams, path, self_ty))
         name = ty.segs[-1]
         args = tuple(self.conv_type(a, tparams, path, self_ty) for a in ty.args)
         if len(ty.segs) == 1 or ty.segs[-2] in ('crate', 'super', 'self') or True:
